@@ -29,6 +29,10 @@ type ReplayFile struct {
 
 func writeReplay(s *Session, prop string, ob *Obligation, why string) string {
 	dir := filepath.Join(verifDir, "replays")
+	if r := os.Getenv("VERIF_REPO"); r != "" && r != "/repo" {
+		// runs against a scratch copy (selftest, seeded changes) keep their replay files out of /verif
+		dir = filepath.Join(os.TempDir(), "govc-scratch-replays")
+	}
 	os.MkdirAll(dir, 0o755)
 	name := reUnsafe.ReplaceAllString(ob.Name, "_")
 	if len(name) > 120 {
